@@ -309,7 +309,8 @@ def emitBody (env : Env) (d : Document) : Option Str := do
     | none => []
   let metaLines ← emitMetaLines d.metaKv
   let metaPart : List Str :=
-    if d.metaKv.isEmpty then [] else [if metaLines.isEmpty then [] else joinWith ['\n'] ("META:".toList :: metaLines)]
+    -- `if doc.meta: meta_text = emit_meta(...); if meta_text: lines.append(meta_text)`
+    if d.metaKv.isEmpty || metaLines.isEmpty then [] else [joinWith ['\n'] ("META:".toList :: metaLines)]
   let sep : List Str := if d.hasSeparator then ["---".toList] else []
   let body ← emitTop env d.sections
   let trailing := leadingLines env d.trailingComments 0
